@@ -96,9 +96,10 @@ def generate(repo):
     hmod = ast.unparse(ast.parse(open(os.path.join(repo, 'lentil/helper.py')).read()))    # normalised: formatting and comments do not matter
     out = []
     tr = FnTranslator(None, _method(mod, 'Plane', 'fit_tilt'), {'params': []}, {}, {})
-    # ---------------- helper.mesh: index minus floor(n/2) (textual guard; the model uses `cc`)
-    if 'np.arange(nr) - np.floor(nr / 2.0) - shift[0]' not in hmod or 'np.arange(nc) - np.floor(nc / 2.0) - shift[1]' not in hmod:
-        raise Refuse('helper.mesh: coordinates are no longer arange(n) - floor(n/2) - shift')
+    # ---------------- helper.mesh: the coordinates themselves are regenerated (Gen/Mesh.lean, spec c20) and tied to the model's `cc` by
+    # theorem C04.ptt_mesh_is_generated; here only the defaults that theorem instantiates (`shift=(0, 0)`, `angle=0`) are guarded
+    if 'def mesh(shape, shift=(0, 0), angle=0):' not in hmod:
+        raise Refuse('helper.mesh: signature/defaults are no longer mesh(shape, shift=(0, 0), angle=0)')
     # ---------------- ptt_vector
     pv = _method(mod, 'Plane', 'ptt_vector')
     if ast.unparse(_one([n for n in ast.walk(pv) if isinstance(n, ast.Assign) and ast.unparse(n.targets[0]) in ('(r, c)', 'r, c')], 'ptt_vector: r, c').value) != 'lentil.helper.mesh(self.shape)':
